@@ -331,7 +331,9 @@ theorem cntF_runFrame (p : Prog) (hh : Hist) {s : St} {f : Frame} (h : CntF s f)
     simp only [runFrame, doExclActs]
     split
     · exact cnt_gen h (by lt) (ct_emit_quiet _ _ rfl) rfl (fs := [.flush]) rfl (by lts)
-    · rename_i a _
+    · rename_i t _
+      exact cnt_gen h (by lt) rfl rfl (fs := [.runnerStart t .plain, .exclActs sys (i + 1)]) rfl (by lts)
+    · rename_i a _ _
       split
       · exact cnt_gen h (by lt) (by simp only [ct_push]; exact (ct_of_trace rfl).trans (ct_enqueue s a)) (by simp [St.push])
           (fs := [.flush, .exclActs sys (i + 1)]) (by simp [St.push]) (by lts)
@@ -622,7 +624,8 @@ theorem good_runFrame (p : Prog) (hh : Hist) (s : St) (f : Frame) (hg : ¬ badCa
     simp only [runFrame, doExclActs]
     split
     · exact good_same (ct_emit_quiet _ _ rfl)
-    · rename_i a _; exact good_same (by simp only [ct_push]; exact (ct_of_trace rfl).trans (ct_enqueue s a))
+    · exact good_same rfl
+    · rename_i a _ _; exact good_same (by simp only [ct_push]; exact (ct_of_trace rfl).trans (ct_enqueue s a))
   | topActs t i =>
     simp only [runFrame, doTopActs]
     split
@@ -928,6 +931,7 @@ theorem nrsame_runFrame (p : Prog) (h : Hist) (s : St) (f : Frame) (hnl : ∀ sy
   · obtain ⟨sys, i, rfl⟩ := he
     simp only [runFrame, doExclActs]
     split
+    · exact nrsame_of_info rfl
     · exact nrsame_of_info rfl
     · exact fun x => by simpa using enqueue_nruns s ‹Act› x
   by_cases ht : ∃ t i, f = .topActs t i
